@@ -180,7 +180,7 @@ def run(tier):
             creqs.append("CMP\t%s\t%s\t%s" % (e["O"], e["P"], ";".join(e["pairs"])))
             cmeta.append((t, e))
     for o, (t, e) in zip(drv.batch(creqs), cmeta):
-        parts = o.split(" ")
+        parts = [x for x in o.split(" ") if x != ""]
         if parts[0].startswith("error"):
             raise common.MachineryError("driver CMP: " + o)
         ok, target, stores, rest = parts[0], parts[1], parts[2], parts[3:]
